@@ -65,7 +65,7 @@ func ItemsEqual(it, with Item) bool {
 			result = i.Equals(with)
 			return nil
 		})
-		if ActivityTypes.Contains(with.GetType()) {
+		if typ := with.GetType(); typ == ActivityType || ActivityTypes.Contains(typ) {
 			_ = OnActivity(it, func(i *Activity) error {
 				result = i.Equals(with)
 				return nil
